@@ -226,8 +226,14 @@ def hyp_run(ctx, res, strategy, body, max_examples, label='', max_buckets=None,
         except hypothesis.errors.FailedHealthCheck as e:
             raise build.HarnessError('hypothesis health check: %s' % e)
         except hypothesis.errors.Flaky as e:
-            # a non-deterministic oracle is a harness problem, not a verdict
-            raise build.HarnessError('flaky case in %s/%s: %s' % (ctx.prop, label, e))
+            # The same generated case failed once and passed when re-executed.  Every oracle here is a pure
+            # function of the case and the harness keeps no state between cases (checked on the unchanged tree
+            # over many seeds), so the code under test remembers something from an earlier call: reported as a
+            # violation of its own kind; the replay file documents the case that did not reproduce.
+            res.violation(Violation('history-dependent-result:%s' % (label or 'case'), {'flaky': str(e)[:1500]},
+                                    'a case failed and then passed when executed again: the code under test keeps '
+                                    'state between calls (%s)' % str(e)[:600]))
+            break
         break
     return found
 
